@@ -2,7 +2,7 @@ use std::collections::HashMap;
 use std::fs::{File, OpenOptions};
 use std::io::{BufWriter, Cursor, Read, Write};
 use std::path::{Path, PathBuf};
-use std::sync::atomic::{AtomicU32, Ordering};
+use std::sync::atomic::{AtomicU32, AtomicUsize, Ordering};
 use std::sync::Arc;
 
 use byteorder::{ReadBytesExt, WriteBytesExt};
@@ -523,6 +523,15 @@ impl VLogWriter {
 	}
 }
 
+/// Keeps the value-log files an open iterator may still read (see `VLog::pin_for_iterator`).
+pub(crate) struct VLogIteratorPin(Arc<VLog>);
+
+impl Drop for VLogIteratorPin {
+	fn drop(&mut self) {
+		self.0.active_iterators.fetch_sub(1, Ordering::SeqCst);
+	}
+}
+
 /// Value Log (VLog) for WiscKey-style key-value separation with GC
 ///
 /// This implementation includes:
@@ -555,6 +564,10 @@ pub(crate) struct VLog {
 	/// Cached open file handles for reading
 	pub(crate) file_handles: RwLock<HashMap<u32, Arc<File>>>,
 
+	/// Number of open iterators. An iterator pins the tables that existed when it
+	/// was created, so it can still be led to files that no live table references.
+	active_iterators: AtomicUsize,
+
 	/// Options for VLog configuration
 	pub(crate) opts: Arc<Options>,
 }
@@ -576,6 +589,7 @@ impl VLog {
 			writer: RwLock::new(None),
 			files_map: RwLock::new(HashMap::new()),
 			file_handles: RwLock::new(HashMap::new()),
+			active_iterators: AtomicUsize::new(0),
 			opts,
 		};
 
@@ -947,6 +961,13 @@ impl VLog {
 	/// once no SST can possibly reference them. If iterators are active, cleanup
 	/// is skipped and will be retried on the next GC trigger.
 	pub(crate) fn cleanup_obsolete_files(&self, min_oldest_vlog: u32) -> Result<()> {
+		// Iterators are registered under the manifest read lock and this runs under
+		// the manifest write lock, so none can appear while files are being removed.
+		if self.active_iterators.load(Ordering::SeqCst) > 0 {
+			log::debug!("VLog cleanup skipped: iterators are open; retried on the next trigger");
+			return Ok(());
+		}
+
 		let active = self.active_writer_id.load(Ordering::SeqCst);
 
 		// Collect files that are safe to delete
@@ -1011,6 +1032,13 @@ impl VLog {
 			fd.sync_all()?;
 		}
 		Ok(())
+	}
+
+	/// Registers an iterator that may resolve pointers found in the tables it pins.
+	/// Files are not removed while a pin is alive.
+	pub(crate) fn pin_for_iterator(self: &Arc<Self>) -> VLogIteratorPin {
+		self.active_iterators.fetch_add(1, Ordering::SeqCst);
+		VLogIteratorPin(Arc::clone(self))
 	}
 
 	/// Registers a VLog file in the files map for tracking
